@@ -319,6 +319,9 @@ func runPNFlood(c Case) Result {
 				break
 			}
 		}
+		if wd, _ := s.C.VerifPNWriteDelay(); first == "" && wd != afterMsg {
+			first = "limited" // something consulted the limiter after the PING was sent: no need to wait
+		}
 		time.Sleep(200 * time.Microsecond)
 	}
 	wd, _ := s.C.VerifPNWriteDelay()
@@ -330,6 +333,9 @@ func runPNFlood(c Case) Result {
 		if res.Oracle == "" && wd != afterMsg {
 			res.Oracle = fmt.Sprintf("pong-limited: the PONG moved the flood limiter (%v -> %v)", afterMsg, wd)
 		}
+	case "limited":
+		res.Obs = "?limited"
+		res.Oracle = fmt.Sprintf("pong-limited: the answer to the PING went through the flood limiter (%v -> %v)", afterMsg, wd)
 	case "privmsg":
 		res.Obs = "?late"
 		res.Oracle = "pong-behind-limiter: a rate-limited PRIVMSG (held >= 3s) reached the peer before the PONG"
@@ -431,7 +437,7 @@ func runPNSeq(c Case, connected, pending bool) Result {
 		ev := pnDecodeEvent(a, req, implCur)
 		panicsBefore := s.PanicCount()
 		genBefore := atomic.LoadInt32(&s.general)
-		if !s.C.VerifPNPrimeLimiter(0, 3*time.Second) {
+		if !s.C.VerifPNPrimeLimiter(0, 2*time.Second) {
 			return Result{Obs: obs.String() + "?disconnected", Oracle: "stall: client disconnected", Sig: "stall"}
 		}
 		mark := s.Mark()
